@@ -1090,6 +1090,10 @@ impl<T: Transport, Env: UtpEnvironment> VirtualSocket<T, Env> {
             None => vs_event!(self, "dying", result = "ok", state = self.state.name()),
         }
 
+        // In-order data that is still parked behind a full user queue was acknowledged to the
+        // peer: the reader must get it before the end of stream / the error.
+        self.user_rx.flush_all_before_close();
+
         if let Some(e) = error {
             self.user_rx.enqueue_error(format!("{e:#}"));
         }
